@@ -215,4 +215,250 @@ theorem materialize_typed (s : Bool) (S : Schema) (f : FieldD) (hw : wfFieldB S.
     (h : slotTypedB s S f v = true) : slotTypedB s S f (materialize S f v) = true := by
   cases v <;> first | exact h | exact defaultOf_typed s S f hw
 
+/-! ### leaves: what `_postprocess_single` returns -/
+
+theorem loadVarint_lt (bs : Bytes) (v k : Nat) (h : loadVarint bs = .ok (v, k)) : v < 18446744073709551616 := by
+  unfold loadVarint at h
+  split at h
+  · simp at h; rw [← h.1]; exact Nat.mod_lt _ (by decide)
+  · simp at h
+
+theorem signRecover32_ge (n : Nat) : (-9223372036854775808 : Int) ≤ signRecover 32 n := by
+  unfold signRecover
+  simp only
+  have : n % 2 ^ 32 < 2 ^ 32 := Nat.mod_lt _ (by decide)
+  split <;> (push_cast; omega)
+
+theorem signRecover64_ge (n : Nat) : (-9223372036854775808 : Int) ≤ signRecover 64 n := by
+  unfold signRecover
+  simp only
+  have : n % 2 ^ 64 < 2 ^ 64 := Nat.mod_lt _ (by decide)
+  split
+  · push_cast; omega
+  · rename_i h; push_cast; simp only [Nat.reduceSub] at h; omega
+
+theorem postVarint_typed (s : Bool) (t : PType) (n : Nat) (ht : wireVarintTypes.contains t = true) :
+    scalarTypedB s t (postVarint t n) = true := by
+  have h32 := signRecover32_ge n
+  have h64 := signRecover64_ge n
+  cases t <;> simp [wireVarintTypes] at ht <;> cases s <;>
+    simp [postVarint, scalarTypedB, isIntTy, intEncB, h32, h64]
+
+theorem quiet32_lt (b : Nat) (h : b < 4294967296) : quiet32 b < 4294967296 := by
+  unfold quiet32
+  split
+  · rename_i hc
+    simp only [Bool.and_eq_true, beq_iff_eq] at hc
+    have := hc.2
+    omega
+  · exact h
+
+theorem toSigned_range32 (u : Nat) (h : u < 4294967296) :
+    (-2147483648 : Int) ≤ toSigned 32 u ∧ toSigned 32 u < 2147483648 := by
+  unfold toSigned
+  simp only [Nat.reduceSub, Nat.reducePow]
+  split <;> (push_cast; omega)
+
+theorem toSigned_range64 (u : Nat) (h : u < 18446744073709551616) :
+    (-9223372036854775808 : Int) ≤ toSigned 64 u ∧ toSigned 64 u < 9223372036854775808 := by
+  unfold toSigned
+  simp only [Nat.reduceSub, Nat.reducePow]
+  split <;> (push_cast; omega)
+
+theorem postFixed_ok (t : PType) (p : Bytes) (v : Val) (h : postFixed t p = .ok v) :
+    ∃ w sg fl, fmtOf t = some (w, sg, fl) ∧ p.length = w ∧
+      v = (if fl then (if w == 4 then Val.f32 (quiet32 (unpackLE p)) else Val.f64 (unpackLE p))
+           else if sg then Val.int (toSigned (8 * w) (unpackLE p)) else Val.int (unpackLE p)) := by
+  unfold postFixed at h
+  split at h
+  · simp at h
+  · rename_i w sg fl hfmt
+    refine ⟨w, sg, fl, hfmt, ?_⟩
+    by_cases hl : p.length = w
+    · refine ⟨hl, ?_⟩
+      have hl' : (p.length != w) = false := by simp [hl]
+      simp only [hl', Bool.false_eq_true, if_false] at h
+      cases fl <;> cases sg <;> simp at h ⊢
+      · exact h.symm
+      · exact h.symm
+      · split at h <;> rename_i hw4 <;> simp [hw4] <;> (injection h with h; exact h.symm)
+      · split at h <;> rename_i hw4 <;> simp [hw4] <;> (injection h with h; exact h.symm)
+    · have hl' : (p.length != w) = true := by simp [hl]
+      simp [hl'] at h
+
+theorem postFixed_typed (s : Bool) (t : PType) (p : Bytes) (v : Val) (hw : s = true → WfBytes p)
+    (h : postFixed t p = .ok v) : scalarTypedB s t v = true := by
+  obtain ⟨w, sg, fl, hfmt, hl, hv⟩ := postFixed_ok t p v h
+  cases s with
+  | false =>
+    cases t <;> simp [fmtOf, packFmt] at hfmt <;> (obtain ⟨h1, h2, h3⟩ := hfmt; subst h1 h2 h3; subst hv) <;>
+      simp [scalarTypedB, isIntTy]
+  | true =>
+    have hlt := unpackLE_lt p (hw rfl)
+    cases t <;> simp [fmtOf, packFmt] at hfmt <;>
+      (obtain ⟨h1, h2, h3⟩ := hfmt; subst h1 h2 h3; subst hv; rw [hl] at hlt) <;>
+      simp only [Nat.reducePow] at hlt <;> simp [scalarTypedB, isIntTy, intEncB]
+    · exact quiet32_lt _ hlt
+    · exact hlt
+    · omega
+    · exact toSigned_range32 _ hlt
+    · omega
+    · exact toSigned_range64 _ hlt
+
+theorem wf_take (p : Bytes) (n : Nat) (h : WfBytes p) : WfBytes (p.take n) :=
+  fun b hb => h b (List.mem_of_mem_take hb)
+
+theorem wf_drop (p : Bytes) (n : Nat) (h : WfBytes p) : WfBytes (p.drop n) :=
+  fun b hb => h b (List.mem_of_mem_drop hb)
+
+theorem packed_varint (t : PType) (hp : isPacked t = true)
+    (h1 : (t == .float || t == .fixed32 || t == .sfixed32) = false)
+    (h2 : (t == .double || t == .fixed64 || t == .sfixed64) = false) :
+    wireVarintTypes.contains t = true := by
+  cases t <;> simp [isPacked, packedTypes, wireVarintTypes] at hp h1 h2 ⊢
+
+theorem decodePackedFuel_typed (s : Bool) (t : PType) (hp : isPacked t = true) :
+    ∀ (fuel : Nat) (p : Bytes) (vs : List Val), (s = true → WfBytes p) →
+      decodePackedFuel t fuel p = .ok vs → ∀ v ∈ vs, scalarTypedB s t v = true := by
+  intro fuel
+  induction fuel with
+  | zero => intro p vs _ h; simp [decodePackedFuel] at h
+  | succ fuel ih =>
+    intro p vs hw h
+    unfold decodePackedFuel at h
+    cases p with
+    | nil => simp at h; subst h; intro v hv; simp at hv
+    | cons b p =>
+      simp only at h
+      split at h
+      · cases h1 : postFixed t (List.take 4 (b :: p)) with
+        | error e => rw [h1] at h; simp at h
+        | ok v0 =>
+          rw [h1] at h; simp only [bind_ok] at h
+          cases h2 : decodePackedFuel t fuel (List.drop 4 (b :: p)) with
+          | error e => rw [h2] at h; simp at h
+          | ok vs0 =>
+            rw [h2] at h; simp only [bind_ok] at h
+            injection h with h; subst h
+            intro v hv
+            simp only [List.mem_cons] at hv
+            rcases hv with hv | hv
+            · subst hv; exact postFixed_typed s t _ _ (fun hs => wf_take _ _ (hw hs)) h1
+            · exact ih _ _ (fun hs => wf_drop _ _ (hw hs)) h2 v hv
+      · split at h
+        · cases h1 : postFixed t (List.take 8 (b :: p)) with
+          | error e => rw [h1] at h; simp at h
+          | ok v0 =>
+            rw [h1] at h; simp only [bind_ok] at h
+            cases h2 : decodePackedFuel t fuel (List.drop 8 (b :: p)) with
+            | error e => rw [h2] at h; simp at h
+            | ok vs0 =>
+              rw [h2] at h; simp only [bind_ok] at h
+              injection h with h; subst h
+              intro v hv
+              simp only [List.mem_cons] at hv
+              rcases hv with hv | hv
+              · subst hv; exact postFixed_typed s t _ _ (fun hs => wf_take _ _ (hw hs)) h1
+              · exact ih _ _ (fun hs => wf_drop _ _ (hw hs)) h2 v hv
+        · rename_i hn1 hn2
+          have hv := packed_varint t hp (by simpa using hn1) (by simpa using hn2)
+          split at h
+          · simp at h
+          · rename_i n k hlv
+            cases h2 : decodePackedFuel t fuel (List.drop k (b :: p)) with
+            | error e => rw [h2] at h; simp at h
+            | ok vs0 =>
+              rw [h2] at h; simp only [bind_ok] at h
+              injection h with h; subst h
+              intro v hv'
+              simp only [List.mem_cons] at hv'
+              rcases hv' with hv' | hv'
+              · subst hv'; exact postVarint_typed s t n hv
+              · exact ih _ _ (fun hs => wf_drop _ _ (hw hs)) h2 v hv'
+
+/-! ### lists of elements -/
+
+theorem items_cons (s : Bool) (S : Schema) (f : FieldD) (x : Val) (xs : List Val) :
+    itemsTypedB s S f (x :: xs) = (itemsTypedB s S f [x] && itemsTypedB s S f xs) := by
+  cases x <;> simp [itemsTypedB]
+
+theorem items_append (s : Bool) (S : Schema) (f : FieldD) (xs ys : List Val) :
+    itemsTypedB s S f (xs ++ ys) = (itemsTypedB s S f xs && itemsTypedB s S f ys) := by
+  induction xs with
+  | nil => simp [itemsTypedB]
+  | cons x xs ih => rw [List.cons_append, items_cons, ih, items_cons s S f x xs, Bool.and_assoc]
+
+theorem item_leaf (s : Bool) (S : Schema) (f : FieldD) (x : Val) (h : leafTypedB s f x = true) :
+    itemsTypedB s S f [x] = true := by
+  cases x <;> simp [leafTypedB] at h <;> simp [itemsTypedB, leafTypedB, h]
+
+theorem items_of_leaves (s : Bool) (S : Schema) (f : FieldD) (vs : List Val)
+    (h : ∀ v ∈ vs, leafTypedB s f v = true) : itemsTypedB s S f vs = true := by
+  induction vs with
+  | nil => simp [itemsTypedB]
+  | cons x xs ih =>
+    rw [items_cons, item_leaf s S f x (h x (by simp)), ih (fun v hv => h v (by simp [hv]))]
+    rfl
+
+theorem leaf_of_scalar (s : Bool) (f : FieldD) (t : PType) (v : Val) (he : elemTy f = some t)
+    (h : scalarTypedB s t v = true) : leafTypedB s f v = true := by
+  cases v <;> simp [scalarTypedB] at h <;> simp [leafTypedB, he, scalarTypedB, h]
+
+theorem elemTy_plain (f : FieldD) (h : f.ty ≠ .message) : elemTy f = some f.ty := by
+  unfold elemTy
+  simp [h]
+
+/-- a singular typed slot that is set holds an element -/
+theorem slot_item (s : Bool) (S : Schema) (f : FieldD) (v : Val) (h : slotTypedB s S f v = true)
+    (hp : v ≠ .ph) (hn : v ≠ .none) (hs : singularB f = true) : itemsTypedB s S f [v] = true := by
+  unfold singularB at hs
+  simp only [Bool.and_eq_true, Bool.not_eq_true', bne_iff_ne, ne_eq] at hs
+  cases v with
+  | ph => exact absurd rfl hp
+  | none => exact absurd rfl hn
+  | list xs => rw [slotTypedB] at h; simp [hs.1] at h
+  | dict ks vs => rw [slotTypedB] at h; simp [hs.2] at h
+  | msg c sl ow unk cur =>
+    rw [slotTypedB] at h
+    simp only [Bool.and_eq_true] at h
+    rw [itemsTypedB, itemsTypedB]
+    simp [h.1.2, h.2]
+  | _ =>
+    simp only [slotTypedB, Bool.and_eq_true] at h
+    exact item_leaf s S f _ h.2
+
+/-- an element is a typed value of a singular slot -/
+theorem item_slot (s : Bool) (S : Schema) (f : FieldD) (v : Val) (h : itemsTypedB s S f [v] = true)
+    (hs : singularB f = true) : slotTypedB s S f v = true := by
+  cases v with
+  | ph => exact slotTypedB_ph s S f
+  | msg c sl ow unk cur =>
+    rw [itemsTypedB, itemsTypedB, Bool.and_true] at h
+    simp only [Bool.and_eq_true] at h
+    rw [slotTypedB]
+    simp [hs, h.1, h.2]
+  | _ => simp [itemsTypedB, leafTypedB] at h <;> simp [slotTypedB, hs, leafTypedB, h]
+
+theorem dictInsert_typed (s : Bool) (S : Schema) (fk fv : FieldD) (k v : Val)
+    (hk : itemsTypedB s S fk [k] = true) (hv : itemsTypedB s S fv [v] = true) :
+    ∀ (ks vs : List Val), ks.length = vs.length → itemsTypedB s S fk ks = true → itemsTypedB s S fv vs = true →
+      (dictInsert ks vs k v).1.length = (dictInsert ks vs k v).2.length
+      ∧ itemsTypedB s S fk (dictInsert ks vs k v).1 = true ∧ itemsTypedB s S fv (dictInsert ks vs k v).2 = true
+  | [], [], _, _, _ => by simp [dictInsert, hk, hv]
+  | [], _ :: _, hl, _, _ => by simp at hl
+  | _ :: _, [], hl, _, _ => by simp at hl
+  | k' :: ks, v' :: vs, hl, h1, h2 => by
+    rw [items_cons] at h1 h2
+    simp only [Bool.and_eq_true] at h1 h2
+    simp only [List.length_cons, Nat.add_right_cancel_iff] at hl
+    obtain ⟨i1, i2, i3⟩ := dictInsert_typed s S fk fv k v hk hv ks vs hl h1.2 h2.2
+    rw [dictInsert]
+    split
+    · refine ⟨by simp [hl], ?_, ?_⟩
+      · rw [items_cons]; simp [h1.1, h1.2]
+      · rw [items_cons]; simp [hv, h2.2]
+    · refine ⟨by simp [i1], ?_, ?_⟩
+      · simp only; rw [items_cons]; simp [h1.1, i2]
+      · simp only; rw [items_cons]; simp [h2.1, i3]
+
 end Bp
